@@ -7,7 +7,7 @@ import operator
 from typing import Any, Optional
 
 from .absval import (
-    BoundV, CharSet, ClassV, EnumV, FuncV, HObj, IntSet, LambdaV, OneOf, Opaque, Ref, SeqStr, Text, Unknown, is_concrete, new_text,
+    BoundV, CharSet, ClassV, EnumV, FuncV, HObj, IntSet, LambdaV, OneOf, Opaque, Ref, SeqStr, Term, Text, Unknown, is_concrete, new_text,
 )
 
 BUILTIN_NAMES = {
@@ -141,6 +141,24 @@ def format_value(I, v: Any, spec: Optional[str], st) -> Any:
     return Unknown(f"format spec {spec}")
 
 
+def freeze_term(I, v: Any, st) -> Any:
+    """Arguments of a Term: heap containers become tuples so the term is hashable."""
+    if isinstance(v, Ref):
+        h = st.obj(v)
+        if h.kind in ("list", "set"):
+            return ("list",) + tuple(freeze_term(I, x, st) for x in h.items)
+        if h.kind == "dict":
+            return ("dict",) + tuple((k, freeze_term(I, x, st)) for k, x in h.fields.items())
+        return ("obj", h.cls)
+    if isinstance(v, Text):
+        return Term("text", (tuple(sorted(v.labels)), v.kind, v.tid))
+    if isinstance(v, BoundV) and isinstance(v.recv, Term):
+        return Term("." + v.name, (v.recv,))
+    if isinstance(v, tuple):
+        return tuple(freeze_term(I, x, st) for x in v)
+    return v
+
+
 def truth(I, v: Any, st) -> Optional[bool]:
     if isinstance(v, Unknown):
         return None
@@ -166,7 +184,7 @@ def truth(I, v: Any, st) -> Optional[bool]:
         if h.kind == "dict":
             return len(h.fields) > 0
         return True
-    if isinstance(v, (Opaque, FuncV, ClassV, BoundV, LambdaV)):
+    if isinstance(v, (Opaque, FuncV, ClassV, BoundV, LambdaV, Term)):
         return True
     if isinstance(v, IntSet):
         if 0 not in v.values:
@@ -271,7 +289,7 @@ def _equal(I, l: Any, r: Any, st, lexpr, rexpr) -> list:
         return _fork(st)
     if (l is None) != (r is None):
         other = r if l is None else l
-        if isinstance(other, (Ref, Opaque, Text, SeqStr, CharSet, FuncV, ClassV, EnumV, IntSet, LambdaV)):
+        if isinstance(other, (Ref, Opaque, Text, SeqStr, CharSet, FuncV, ClassV, EnumV, IntSet, LambdaV, Term, BoundV)):
             return [(False, st)]
         return _fork(st)
     if isinstance(l, SeqStr) and isinstance(r, str) or isinstance(r, SeqStr) and isinstance(l, str):
@@ -693,6 +711,11 @@ def getattr_(I, v: Any, name: str, st, node=None) -> list:
             for sub in c.node.body:
                 if isinstance(sub, ast.Assign) and any(isinstance(t, ast.Name) and t.id == name for t in sub.targets):
                     return I.eval(sub.value, st)
+        hook = I.probes.get("classattr")
+        if hook:
+            r = hook(I, v, name, st)
+            if r is not None:
+                return r
         return [(Unknown(f"class attr {name}"), st)]
     if isinstance(v, EnumV):
         if name == "value":
@@ -706,6 +729,8 @@ def getattr_(I, v: Any, name: str, st, node=None) -> list:
                 if any("property" in d for d in m.decorators()):
                     return I.call_func(m.qualname, [v], {}, st, node)
                 return [(BoundV(v, name, m.qualname), st)]
+    if isinstance(v, Term):
+        return [(BoundV(v, name), st)]
     if isinstance(v, Opaque):
         hook = I.probes.get("getattr:" + v.cls) or I.probes.get("getattr:*")
         if hook:
@@ -866,6 +891,9 @@ def call_builtin(I, fv: BoundV, args: list, kwargs: dict, st, node=None) -> list
             return [(concat_str(I, parts, st), st)]
         if isinstance(args[0], Text):
             return [(new_text(args[0].labels, "joined"), st)]
+    if isinstance(recv, Term):
+        kw = tuple(sorted((k, freeze_term(I, v, st)) for k, v in kwargs.items()))
+        return [(Term("." + name, (recv,) + tuple(freeze_term(I, a, st) for a in args) + ((("kw",) + kw,) if kw else ())), st)]
     if isinstance(recv, (SeqStr, CharSet)):
         return str_method_abstract(I, recv, name, args, st)
     if isinstance(recv, Text):
